@@ -161,12 +161,14 @@ inductive Expr where
   | ne (a b : Expr)
   deriving DecidableEq, Repr
 
-/-- the atoms the control code reads; an atom of the source that is not listed makes the parse fail -/
+/-- the atoms the control code reads (as the translator normalises them: a parameter reads `<argN>`, a local
+    assigned once reads as its defining expression, `<ClassName>` for a constructor call); an atom of the source
+    that is not listed makes the parse fail -/
 def atoms : List String :=
-  ["$self.grid_initial", "$self.grid_final", "$reporter.improvement", "$self.initial_quality", "$self.final_quality",
+  ["$self.grid_initial", "$self.grid_final", "$<ClampOptimizationData>.improvement", "$self.initial_quality", "$self.final_quality",
    "$len(self.iterations)", "$self.max_iterations", "$self.tolerance", "$self.last_improvement",
    "$self.iterations[0].initial_quality", "$self.initial_improvement", "$self.iterations[0].improvement",
-   "$self.iterations[-1].improvement", "$len(junction.links)"]
+   "$self.iterations[-1].improvement", "$len(self.junctions[<arg1>].links)"]
 
 def atomIndex (s : String) : List String → Nat → Option Nat
   | [], _ => none
